@@ -71,35 +71,27 @@ rfbRegisterSecurityHandler(rfbSecurityHandler* handler)
 }
 
 /*
- * This method unregisters a list of security types. 
- * These security types won't be available for any new
- * client connection. 
+ * This method unregisters a security type: it won't be available for
+ * any new client connection.  Only the given handler is removed (its
+ * next pointer is the link of the list of registered handlers, not a
+ * list supplied by the caller), and the pointer is cleared so that a
+ * later registration does not follow a stale link.
  */
 void
 rfbUnregisterSecurityHandler(rfbSecurityHandler* handler)
 {
-	rfbSecurityHandler *cur = NULL, *pre = NULL;
+	rfbSecurityHandler **cur;
 
 	if(handler == NULL)
 		return;
 
-	if(securityHandlers == handler) {
-		securityHandlers = securityHandlers->next;
-		rfbUnregisterSecurityHandler(handler->next);
-		return;
-	}
-
-	cur = pre = securityHandlers;
-
-	while(cur) {
-		if(cur == handler) {
-			pre->next = cur->next;
-			break;
+	for(cur = &securityHandlers; *cur; cur = &(*cur)->next) {
+		if(*cur == handler) {
+			*cur = handler->next;
+			handler->next = NULL;
+			return;
 		}
-		pre = cur;
-		cur = cur->next;
 	}
-	rfbUnregisterSecurityHandler(handler->next);
 }
 
 /*
